@@ -295,11 +295,20 @@ fn build_list_view<O: OffsetSizeTrait>(t: &mut Tape, f: &LField, vals: &[LValue]
 
 fn child_col(t: &mut Tape, f: &LField, vals: &[LValue], j: usize, lay: &Lay) -> Vec<LValue> {
     let cfg = vcfg();
+    // 8-bit dictionary keys below: garbage under null structs must not add distinct values beyond the key capacity
+    let small_keys = f.ty.any(&|x| matches!(x, LType::Dict { kbits: 8, .. }));
+    let existing: Vec<&LValue> = if small_keys { vals.iter().filter_map(|r| if let LValue::Struct(vs) = r { Some(&vs[j]) } else { None }).collect() } else { vec![] };
     vals.iter()
         .map(|r| match r {
             LValue::Struct(vs) => vs[j].clone(),
             _ => {
-                if lay.fancy {
+                if lay.fancy && small_keys {
+                    if existing.is_empty() {
+                        if f.nullable { LValue::Null } else { default_value(&f.ty) }
+                    } else {
+                        existing[t.below(existing.len())].clone()
+                    }
+                } else if lay.fancy {
                     gen_value(t, &f.ty, f.nullable, &cfg)
                 } else if f.nullable {
                     LValue::Null
@@ -618,7 +627,7 @@ fn build_dict(t: &mut Tape, kbits: u8, ksigned: bool, value: &LType, vals: &[LVa
             dict.push(v.clone());
         }
     }
-    assert!(dict.len() <= cap, "generator produced more distinct values ({}) than the dictionary key type can address", dict.len());
+    assert!(dict.len() <= cap, "generator produced more distinct values ({}) than the dictionary key type can address ({} bit keys, values {:?}, {} rows)", dict.len(), kbits, value, vals.len());
     let has_null = vals.iter().any(|v| v.is_null());
     let mut null_entry = false;
     if lay.fancy {
